@@ -520,6 +520,37 @@ impl<T: El> MapWorld<T> {
                     }
                 }
             }
+            OpK::ExtendHint => {
+                // size_hint is only a hint: a wrong one may cost a (documented) capacity-overflow
+                // panic, never anything else, and never differently per build profile
+                let hint = [usize::MAX, usize::MAX - 1, isize::MAX as usize, 1usize << 62][(op.arg & 3) as usize];
+                let ids: Vec<u32> = if T::ZST { vec![0] } else { vec![self.next_key, self.next_key + 1] };
+                let before = self.obs_state();
+                let elems: Vec<(T, T)> = ids.iter().map(|&q| (Self::mkk(q), Self::mkv(0))).collect();
+                let it = HintIter { inner: elems.into_iter(), hint };
+                let r = catch(|| self.call(|m| m.extend(it)));
+                match r {
+                    Ok(()) => {
+                        for &q in &ids {
+                            self.r.entry(Self::lk(q)).or_insert(0);
+                            self.note_key(q);
+                        }
+                        obs.u64(1);
+                    }
+                    Err(p) => {
+                        if p.starts_with(hasher::FUSE_MSG) {
+                            panic!("{}", p);
+                        }
+                        if !p.to_lowercase().contains("capacity overflow") {
+                            vbail!("panic", "extend with size_hint lower bound {:#x}: {}", hint, p);
+                        }
+                        if self.obs_state() != before {
+                            vbail!("contract", "extend panicked with a capacity overflow but changed the map");
+                        }
+                        obs.u64(2);
+                    }
+                }
+            }
             OpK::FromIter => {
                 let items: Vec<(T, T)> = self.r.iter().map(|(&a, &b)| (Self::mkk(a), Self::mkv(b))).collect();
                 let m2 = window(|| items.into_iter().collect::<M<T, T>>());
@@ -1231,6 +1262,21 @@ impl<T: El> MapWorld<T> {
             }
         }
         Ok(())
+    }
+}
+
+/// An iterator that lies about its length (allowed: `size_hint` is a hint).
+pub struct HintIter<I> {
+    pub inner: I,
+    pub hint: usize,
+}
+impl<I: Iterator> Iterator for HintIter<I> {
+    type Item = I::Item;
+    fn next(&mut self) -> Option<I::Item> {
+        self.inner.next()
+    }
+    fn size_hint(&self) -> (usize, Option<usize>) {
+        (self.hint, None)
     }
 }
 
